@@ -135,7 +135,17 @@ ProbeOk(p) == IF Len(p) # 3 THEN FALSE
               ELSE Ok(p[1]) /\ Ok(p[2]) /\ p[3].k = "rows" /\ p[3].rows = << <<I(1), I(2)>> >>
 RepeatOk(e) == IF Unconstrained(e) THEN TRUE
                ELSE Ok(e.again_open) /\ SameTables(e.tables, e.again) /\ ProbeOk(e.probe)
-TCrashRead == Is("crashread") /\ Step /\ (CrashOk(Ev) = TRUE) /\ (RepeatOk(Ev) = TRUE) /\ UNCHANGED dbvars
+\* C08: the recovered file is structurally sound (the audit of the whole file found nothing: trees well-formed, no page
+\* owned twice), and a crash inside recovery itself (depth 2: the files as they were after the j-th write of that
+\* recovery, opened by a third process) opens, is sound and holds the same contents as the uninterrupted recovery
+SoundOk(e) == IF Unconstrained(e) \/ ~Ok(e.open) THEN TRUE ELSE e.sound = <<>>
+NestedOk(e) == IF Unconstrained(e) \/ ~Ok(e.open) THEN TRUE
+               ELSE \A i \in 1..Len(e.nested) : LET n == e.nested[i] IN
+                      \* recovery ends with a checkpoint; a crash inside it is a crash inside Pager::flush (CheckpointNotAtomic)
+                      IF "CheckpointNotAtomic" \in Dev /\ n.inflush THEN TRUE
+                      ELSE /\ Ok(n.open) /\ n.sound = <<>>
+                           /\ (IF n.same THEN TRUE ELSE SameTables(e.tables, n.tables))
+TCrashRead == Is("crashread") /\ Step /\ (CrashOk(Ev) = TRUE) /\ (RepeatOk(Ev) = TRUE) /\ (SoundOk(Ev) = TRUE) /\ (NestedOk(Ev) = TRUE) /\ UNCHANGED dbvars
 
 TNext == TCrashRead \/ TReset \/ TAlter \/ TBegin \/ TSelect \/ TDml \/ TBatch \/ TCreate \/ TDrop \/ TIndex \/ TOpaque
          \/ TCommit \/ TRollback \/ TVacuum \/ TZombie \/ TZCommit \/ TReopen \/ TNoop \/ TSizes
